@@ -145,7 +145,7 @@ def run_tlc(spec, cfg, metadir, env=None, workers=1, extra=(), timeout=1800, xmx
 
 
 RE_STATES = re.compile(r"(\d+) states generated, (\d+) distinct states found")
-RE_TAG = re.compile(r'^<<"(VIOL|STAT|EDGE|REPLAY)", "(.*)">>$')
+RE_TAG = re.compile(r'^<<"(VIOL|STAT|EDGE|REPLAY|DRIFT)", "(.*)">>$')
 
 
 def parse_tagged(out):
@@ -212,7 +212,9 @@ def validate_traces(lines, workdir, name, shards=None, timeout=1800):
             raise ToolError("trace validation failed to run to completion on %s (rc=%d); TLC output kept at %s\n%s"
                             % (fn, rc, keep, out[-3000:]))
         gen, dist = parse_states(out)
-        return json.loads(tags["VIOL"][-1]), json.loads(tags["STAT"][-1]), gen, dist, dt
+        st = json.loads(tags["STAT"][-1])
+        st["_drift"] = json.loads(tags["DRIFT"][-1]) if "DRIFT" in tags else []
+        return json.loads(tags["VIOL"][-1]), st, gen, dist, dt
 
     viol, stat, gen, dist = [], {}, 0, 0
     with ThreadPoolExecutor(max_workers=min(12, max(1, len(files)))) as ex:
@@ -221,6 +223,8 @@ def validate_traces(lines, workdir, name, shards=None, timeout=1800):
             for k, x in st.items():
                 if k == "rowcap":
                     stat[k] = max(stat.get(k, 0), x)
+                elif k == "_drift":
+                    stat[k] = stat.get(k, []) + x
                 else:
                     stat[k] = stat.get(k, 0) + x
             gen += g
